@@ -84,7 +84,7 @@ def check_case(rec, case):
         return
     G = o.value
     is_cnf = cf.is_cnf(RG)
-    for w in words:
+    for w in words + list(case.get('long_words', ())):
         o = call(ca.cfg_accepts_word, G, w)
         if not o.ok:
             report_failure(rec, o, 'cfg_accepts_word', grammar=cf.show(RG), word=w)
@@ -255,6 +255,10 @@ def gen_cases(rec, rng, tier):
         nv = rng.randint(1, 6)
         RG = cfgg.random_cnf(rng, nv, rng.randint(0, 8), nt=rng.randint(1, 3))
         yield {'cls': 'random_cnf', 'ref': RG, 'n': (6 if thorough else 5) if len(RG[1]) <= 2 else 4, 'requery': True}
+        lw = cfgg.random_long_words(rng, RG)
+        if lw:
+            # words of 8..14 letters (members by random derivation, and near misses): table sizes beyond 'all words up to 6'
+            yield {'cls': 'random_cnf_long_words', 'ref': RG, 'n': 1, 'long_words': lw}
 
 
 def run(rec, rng, tier):
